@@ -43,6 +43,7 @@ def correspondence(ctx):
         s = pipeline.core_script(m, order=r.below(2), symm=pipeline.custom_integrals(r, m) if symm == "custom" else symm,
                                  early=r.chance(1, 3))
         s += ["blockof %d" % r.below(1 << M), "innerof %d" % r.below(1 << M), "blockof %d" % (1 << M), "innerof %d" % ((1 << M) + 1)]
+        s += ["fockof 0 0", "fockof -1 0", "fockof %d 0" % r.range(0, 1 << M), "fockof %d %d" % (r.below(3), r.below(1 << M)), "fockof 4096 0"]
         s += ["dm %s" % pipeline.hx(1.0), "fops"] + ["fop1 quad %d %d" % (r.below(M), r.below(M)) for _ in range(3)]
         scripts.append(s)
         metas.append((symm, m))
